@@ -1416,3 +1416,229 @@ def c15_straight_first_corner(rng):
             continue
         return np.ascontiguousarray(r), dict(info, n=len(r), base_margin=c15_simple_margin(q))
     raise RuntimeError("could not generate a straight-first-corner polygon")
+
+
+# --------------------------------------------------------------------------- C15, deepening round
+# crossing cycles of every kind, boundary (touching / overlapping) cycles with exact dyadic coordinates, nearly straight
+# first corners. Used by harness/c15.py only.
+
+
+def c15_star_nk(rng, n=None, k=None):
+    """star polygon {n/k}: n points in clear convex position (random, not regular) visited every k-th,
+    gcd(n,k) = 1, 2 <= k <= n-2. All turns have the same sign (turning number min(k, n-k) >= 2)."""
+    from math import gcd
+    for _ in range(200):
+        n_ = n or int(rng.integers(5, 14))
+        ks = [x for x in range(2, n_ - 1) if gcd(n_, x) == 1]
+        if not ks:
+            continue
+        k_ = k or int(ks[int(rng.integers(len(ks)))])
+        p, _ = c15_convex_polygon(rng, n=n_)
+        if len(p) != n_:
+            continue
+        q = p[(np.arange(n_) * k_) % n_]
+        return q, {"kind": "star{%d/%d}" % (n_, k_), "n": n_, "k": k_}
+    raise RuntimeError("star")
+
+
+def c15_crossing_kind(rng, kind=None, margin=1e-2):
+    """A clearly self-intersecting cycle with pairwise different vertices, of a named kind; exact oracle says 'not
+    simple' and two non-adjacent edges cross properly with margin. Returns (p2, info).
+    kinds: bowtie (two neighbours of a convex polygon swapped), star ({n/k}), doublewind (two laps around the centre with
+    growing radius: same turn sign everywhere), twolaps (a polygon traversed twice, the second lap shrunk and turned by
+    half a step), spiralchord (an open spiral of >= 1.5 turns closed by the chord from its end to its start),
+    figure8 (lemniscate sampled away from its double point), pushthrough (one vertex of a simple polygon pushed through
+    a far edge)."""
+    kinds = ["bowtie", "star", "doublewind", "twolaps", "spiralchord", "figure8", "pushthrough"]
+    for _ in range(400):
+        kd = kind or kinds[int(rng.integers(len(kinds)))]
+        if kd == "bowtie":
+            p, _ = c15_convex_polygon(rng, n=int(rng.integers(4, 12)))
+            i = int(rng.integers(len(p)))
+            q = p.copy()
+            j = (i + 1) % len(p)
+            q[[i, j]] = q[[j, i]]
+            info = {"kind": "bowtie", "n": len(q)}
+        elif kd == "star":
+            q, info = c15_star_nk(rng)
+            info = dict(info, kind="star", star=info["kind"])
+        elif kd == "doublewind":
+            m = int(rng.integers(5, 16))
+            th = 4 * np.pi * (np.arange(m) + rng.uniform(-0.15, 0.15, size=m)) / m + rng.uniform(0, 2 * np.pi)
+            r = 1.0 + float(rng.uniform(0.3, 1.0)) * np.arange(m) / m
+            q = np.stack([r * np.cos(th), r * np.sin(th)], axis=1)
+            info = {"kind": "doublewind", "n": m}
+        elif kd == "twolaps":
+            m = int(rng.integers(3, 9))
+            ph = rng.uniform(0, 2 * np.pi)
+            a1 = 2 * np.pi * np.arange(m) / m + ph
+            a2 = a1 + np.pi / m
+            s = float(rng.uniform(0.5, 0.85))
+            q = np.vstack([np.stack([np.cos(a1), np.sin(a1)], axis=1), s * np.stack([np.cos(a2), np.sin(a2)], axis=1)])
+            info = {"kind": "twolaps", "n": 2 * m}
+        elif kd == "spiralchord":
+            m = int(rng.integers(7, 20))
+            turns = float(rng.uniform(1.4, 2.6))
+            th = np.linspace(0, 2 * np.pi * turns, m) + rng.uniform(0, 2 * np.pi)
+            r = 0.3 + 0.7 * np.linspace(0, 1, m)
+            q = np.stack([r * np.cos(th), r * np.sin(th)], axis=1)
+            info = {"kind": "spiralchord", "n": m, "turns": turns}
+        elif kd == "figure8":
+            m = 2 * int(rng.integers(3, 12))
+            t = 2 * np.pi * (np.arange(m) + 0.5) / m
+            ax = float(np.exp(rng.uniform(-0.7, 0.7)))
+            q = np.stack([np.cos(t), ax * np.sin(t) * np.cos(t)], axis=1)
+            info = {"kind": "figure8", "n": m}
+        else:
+            p, pi_ = c15_simple_polygon(rng)
+            n_ = len(p)
+            if n_ < 5:
+                continue
+            i = int(rng.integers(n_))
+            j = int((i + 2 + rng.integers(n_ - 3)) % n_)          # edge j -> j+1 not incident to vertex i
+            a, b = p[j], p[(j + 1) % n_]
+            mid = a + float(rng.uniform(0.3, 0.7)) * (b - a)
+            q = p.copy()
+            q[i] = p[i] + float(rng.uniform(1.1, 1.6)) * (mid - p[i])
+            info = {"kind": "pushthrough", "n": n_}
+        q = np.asarray(q, dtype=float)
+        th = rng.uniform(0, 2 * np.pi)
+        Rm = np.array([[np.cos(th), -np.sin(th)], [np.sin(th), np.cos(th)]])
+        q = (q - q.mean(axis=0)) @ Rm.T
+        if rng.random() < 0.5:
+            q = q[::-1]
+        q = np.roll(q, -int(rng.integers(len(q))), axis=0)
+        ints = c15_int_coords(q)
+        if len(set(map(tuple, ints))) != len(q) or c15_exact_simple(q):
+            continue
+        mg = c15_crossing_margin(q)
+        if mg <= margin:
+            continue
+        s = c15_corner_sines(q)
+        good = np.nonzero(s >= 0.05)[0]
+        if len(good) == 0:
+            continue
+        kk = int(good[int(rng.integers(len(good)))])
+        q = np.roll(q, -(kk - 1), axis=0)
+        return np.ascontiguousarray(q), dict(info, crossing_margin=mg)
+    raise RuntimeError("could not generate a crossing cycle of kind %s" % kind)
+
+
+def c15_dyadic_affine(rng):
+    """integer 2x2 matrix with non-zero determinant (entries |.| <= 4), integer shift, power-of-two scale: maps dyadic
+    points to dyadic points exactly and preserves incidence / collinearity / crossing"""
+    while True:
+        A = rng.integers(-4, 5, size=(2, 2))
+        if abs(int(A[0, 0] * A[1, 1] - A[0, 1] * A[1, 0])) >= 1:
+            break
+    t = rng.integers(-8, 9, size=2)
+    s = 2.0 ** int(rng.integers(-10, 11))
+    return A.astype(float), t.astype(float), s
+
+
+def c15_boundary_cycle(rng, kind=None, delta=0.0):
+    """Cycles ON the decision boundary (delta = 0, exact dyadic coordinates) or next to it (delta != 0, in units of the
+    height): a vertex on the interior of a non-adjacent edge ('touch'), two non-adjacent edges overlapping on a line
+    ('overlap'), a vertex of the cycle on another VERTEX-free edge from the inside of a slot ('slot').
+    delta > 0: clearly simple (gap delta); delta < 0: clearly crossing (penetration |delta|); delta = 0: the closed
+    segments meet (not simple by the exact oracle).  Returns (p2, info)."""
+    kinds = ["touch", "overlap", "tjunction"]
+    kd = kind or kinds[int(rng.integers(len(kinds)))]
+    W = float(rng.integers(4, 17))
+    H = float(rng.integers(2, 9))
+    y = delta * H
+    if kd == "touch":
+        xm = float(rng.integers(1, int(W)))                 # vertex (xm, y) above / on / below the base edge
+        p = [(0, 0), (W, 0), (W, H), (xm, y), (0, H)]
+    elif kd == "overlap":
+        x1 = float(rng.integers(1, int(W) - 1))
+        x2 = float(rng.integers(int(x1) + 1, int(W)))
+        p = [(0, 0), (W, 0), (W, H), (x2, H), (x2, y), (x1, y), (x1, H), (0, H)]
+    else:                                                   # a spike whose tip ends on the base edge
+        x1 = float(rng.integers(1, int(W) - 1))
+        x2 = float(rng.integers(int(x1) + 1, int(W)))
+        xm = (x1 + x2) / 2
+        p = [(0, 0), (W, 0), (W, H), (x2, H), (xm, y), (x1, H), (0, H)]
+    p = np.array(p, dtype=float)
+    A, t, s = c15_dyadic_affine(rng)
+    q = (p @ A.T + t) * s
+    if rng.random() < 0.5:
+        q = q[::-1]
+    q = np.roll(q, -int(rng.integers(len(q))), axis=0)
+    # a non-degenerate first corner (the constructor derives its normal from it)
+    sn = c15_corner_sines(q)
+    good = np.nonzero(sn >= 0.05)[0]
+    if len(good) == 0:
+        return c15_boundary_cycle(rng, kind, delta)
+    kk = int(good[int(rng.integers(len(good)))])
+    q = np.roll(q, -(kk - 1), axis=0)
+    return np.ascontiguousarray(q), {"kind": kd, "n": len(q), "delta": delta, "scale": s}
+
+
+def c15_open_margin(p):
+    """like c15_simple_margin but ignoring straight corners (a straight angle is not a decision boundary of
+    simplicity): min over the distance of non-adjacent edges / diameter and, for corners sharper than 90 degrees, the
+    corner sine."""
+    p = np.asarray(p, dtype=float)
+    n = len(p)
+    diam = float(np.max(np.linalg.norm(p[:, None, :] - p[None, :, :], axis=-1)))
+    a = np.roll(p, 1, axis=0) - p
+    b = np.roll(p, -1, axis=0) - p
+    cosv = np.sum(a * b, axis=1) / (np.linalg.norm(a, axis=1) * np.linalg.norm(b, axis=1))
+    sn = c15_corner_sines(p)
+    m = float(np.min(np.where(cosv > 0, sn, 1.0)))
+    for i in range(n):
+        for j in range(i + 1, n):
+            if j == i + 1 or (i == 0 and j == n - 1):
+                continue
+            m = min(m, _c15_seg_seg_dist(p[i], p[(i + 1) % n], p[j], p[(j + 1) % n]) / diam)
+    return m
+
+
+def c15_near_straight_first_corner(rng, lo=1e-12, hi=1e-3):
+    """A clearly simple polygon whose FIRST corner deviates from a straight angle by `ang` radians (log-uniform in
+    [lo, hi], either side): a point near the middle of the first edge is inserted as vertex 1.
+    Returns (p2, info) with info['corner_dev'] = ang (signed)."""
+    for _ in range(400):
+        p, info = c15_simple_polygon(rng, margin=2e-2)
+        if len(p) > 39:
+            continue
+        ang = float(np.exp(rng.uniform(np.log(lo), np.log(hi)))) * (1.0 if rng.random() < 0.5 else -1.0)
+        e = p[1] - p[0]
+        L = float(np.linalg.norm(e))
+        nrm = np.array([-e[1], e[0]]) / L
+        mid = p[0] + 0.5 * e + nrm * (0.5 * L * np.tan(ang / 2))
+        r = np.vstack([p[:1], [mid], p[1:]])
+        if not c15_exact_simple(r) or c15_open_margin(r) <= 1e-2:
+            continue
+        return np.ascontiguousarray(r), dict(info, n=len(r), corner_dev=ang)
+    raise RuntimeError("could not generate a nearly-straight-first-corner polygon")
+
+
+def c15_close_vertices_polygon(rng, lo=1.5e-3, hi=1e-2):
+    """A clearly simple polygon with one pair of neighbouring vertices only lo..hi diameters apart (beyond the margin
+    of 1e-3, so clearly two different vertices): where an ABSOLUTE tolerance in a duplicate / coincidence test shows once
+    the polygon is small. A vertex is inserted on an edge next to one of its end points, nudged off the edge.
+    Returns (p2, info) with info['pair_dist'] in diameters."""
+    for _ in range(400):
+        p, info = c15_simple_polygon(rng, margin=2e-2)
+        n = len(p)
+        if n > 39:
+            continue
+        diam = float(np.max(np.linalg.norm(p[:, None, :] - p[None, :, :], axis=-1)))
+        i = int(rng.integers(1, n))            # keep the first corner (v0, v1, v2) as it is unless i == 1
+        if i == 1:
+            i = n - 1
+        a, b = p[i], p[(i + 1) % n]
+        e = b - a
+        L = float(np.linalg.norm(e))
+        d = float(np.exp(rng.uniform(np.log(lo), np.log(hi)))) * diam
+        if d > 0.3 * L:
+            continue
+        side = 1.0 if rng.random() < 0.5 else -1.0
+        q = a + e / L * d + side * np.array([-e[1], e[0]]) / L * (d * float(rng.uniform(0.1, 0.4)))
+        r = np.insert(p, i + 1, q, axis=0)
+        if not c15_exact_simple(r) or c15_open_margin(r) <= 1e-3 or c15_corner_sines(r)[1] < 0.05:
+            continue
+        return np.ascontiguousarray(r), dict(info, n=len(r), pair_dist=float(np.linalg.norm(q - a) / diam))
+    raise RuntimeError("could not generate a close-vertices polygon")
